@@ -4,6 +4,7 @@ from ural.utils import SplitResult, urlunsplit, urlsplit, unsplit_netloc
 from ural.infer_redirection import infer_redirection as resolve
 from ural.ensure_protocol import ensure_protocol
 from ural.tld import split_suffix
+from ural.quote import upper_quoted
 
 LANG_QUERY_KEYS = ("gl", "hl")
 
@@ -74,6 +75,11 @@ def fingerprint_url(url, unsplit=True, strip_suffix=False, platform_aware=False)
         platform_aware=platform_aware,
     )
     _, netloc, path, query, fragment = splitted
+
+    # NOTE: letters that were quoted in the url escaped the lowercasing above
+    path = upper_quoted(path.lower())
+    query = upper_quoted(query.lower())
+    fragment = upper_quoted(fragment.lower())
 
     user, password, hostname, port = (
         splitted.username,
